@@ -109,4 +109,4 @@ package connlimiter
 //@   ensures err == nil ==> l != nil && l.counter != nil && K(l.counter) && l.counter.current == 0 &&
 //@                          l.counter.isAccepting && l.counterCond != nil && l.counterCond.L != nil
 //@   ensures err == nil ==> c != nil && l.counter.stop == c.Stop && l.counter.resume == c.Resume
-//@   ensures (c == nil || c.Stop == 0 || c.Resume > c.Stop) ==> err != nil
+//@   ensures (c == nil || c.Stop == 0 || c.Resume > c.Stop) <==> err != nil
